@@ -224,10 +224,13 @@ from harness import c18stress as S
 import fpy2 as fp
 spec = importlib.util.spec_from_file_location('c18_pool_ref', {path!r})
 m = importlib.util.module_from_spec(spec); sys.modules['c18_pool_ref'] = m; spec.loader.exec_module(m)
+from fpy2.transform import DeadCodeEliminate
 targets = json.load(open({tpath!r}))
 out = []
 for t in targets:
-    out.append(S.eval_target(m, fp, t))
+    base = getattr(m, t['fn'])
+    out.append({{'same': S.eval_target(m, fp, t),
+                 'dce': S.eval_target(m, fp, t, base.with_ast(DeadCodeEliminate.apply(base.ast)))}})
 json.dump(out, open({opath!r}, 'w'))
 '''
 
@@ -330,7 +333,9 @@ def history_independence(ck, rng, fp, thorough):
                 f = getattr(m2, t['fn'])
             got = json.loads(json.dumps(eval_target(m, fp, t, f)))
             n += 1
-            if got != expect:
+            # a transformed copy is compared with the SAME transformed copy in the fresh process
+            # (whether the transformation preserves meaning is C07's business, not C18's)
+            if got != expect['dce' if how == 'dce-copy' else 'same']:
                 ck.violation('result differs from the result in a fresh process (history dependence)',
                              {'target': t, 'how': how, 'fresh_process': expect, 'after_history': got,
                               'history_length': nhist, 'module': str(path)})
